@@ -142,6 +142,14 @@ let run_case (ops : string list) : string list =
                         | "subls" -> CSubscribeLs (opt 3)
                         | "unsubscribe" -> CUnsubscribe (nn 3) | "unsubscribe_async" -> CUnsubscribeAsync (nn 3)
                         | "unsubls" -> CUnsubscribeLs (nn 3) | "unsubls_async" -> CUnsubscribeLsAsync (nn 3)
+                        | "cset_async" -> CCSetAsync (a 3, json_of_tok t.(4), nn 5) | "spubinit_async" -> CSPubInitAsync (a 3)
+                        | "spub_async" -> CSPubAsync (nn 3, json_of_tok t.(4)) | "publish_async" -> CPublishAsync (a 3, json_of_tok t.(4))
+                        | "cget_async" -> CCGetAsync (a 3) | "pget_async" -> CPGetAsync (a 3) | "delete_async" -> CDeleteAsync (a 3)
+                        | "pdelete_async" -> CPDeleteAsync (a 3, t.(4) = "1") | "ls_async" -> CLsAsync (opt 3) | "pls_async" -> CPLsAsync (opt 3)
+                        | "subscribe_async" -> CSubscribeAsync (a 3, t.(4) = "1", t.(5) = "1")
+                        | "psubscribe_async" -> CPSubscribeAsync (a 3, t.(4) = "1", t.(5) = "1", None)
+                        | "subls_async" -> CSubscribeLsAsync (opt 3)
+                        | "lock_async" -> CLockAsync (a 3) | "release_async" -> CReleaseLockAsync (a 3)
                         | _ -> failwith "call") in
              let (call, tk) = do_call h cmd in
              let r = answer_of call cmd tk in
